@@ -147,6 +147,13 @@ def extract(ctx):
              and whiles[1].lineno < recvs[2].lineno <= whiles[1].end_lineno, 'write_flash: receive_packet calls are not where the model expects them')
     g.strings('flushRecvArgs', [ast.unparse(r.args[0]) for r in recvs[:2]])
     g.string('retryRecvArg', ast.unparse(recvs[2].args[0]))
+    try:
+        tmo = [ast.literal_eval(r.args[0]) for r in recvs]
+    except Exception:
+        raise ExtractError('write_flash: receive_packet timeouts are not literals')
+    X.expect(all(isinstance(t, (int, float)) and not isinstance(t, bool) for t in tmo), 'write_flash: receive_packet timeouts are not numbers')
+    g.raw('def flushRecvPolls : Bool := ' + ('true' if tmo[0] == 0 and tmo[1] == 0 else 'false') + '   -- both flush receives use timeout 0')
+    g.raw('def retryRecvBlocks : Bool := ' + ('true' if tmo[2] > 0 else 'false') + '   -- the retry receive waits (timeout > 0)')
     g.strings('flushLoopBody', [ast.unparse(s) for s in whiles[0].body])
     ia = X.int_assigns(wf)
     X.expect('retry_counter' in ia, 'write_flash: retry_counter = <literal> not found')
@@ -595,7 +602,7 @@ def gen_flash_cases(ctx):
         ln = max(0, cap + rng.choice([-1, 0, 0, 1, 1, ps]))
         cases.append(mk_case(rng, rng.choice([0xFF, 0xFE]), ps, bp, fp, sp, ln, override=ov))
     # (c) random geometry/length with faults, stale inbox, override, terminate callback, malformed replies
-    for _ in range(1500 if thorough else 260):
+    for _ in range(1500 if thorough else 500):
         ps, bp = rng.choice([1, 2, 3, 4, 5, 8, 16, 24, 25, 26, 31, 50, 64]), rng.randrange(1, 6)
         sp = rng.randrange(0, 5)
         npg = rng.choice([1, 1, 2, bp, bp + 1, 2 * bp, 2 * bp + 1, 3 * bp])
@@ -682,11 +689,12 @@ def gen_wflash_cases(ctx):
         for pre in itertools.product(range(len(alpha)), repeat=k):
             pad = rng.choice([[], [O_LOST] * 6, [O_RLOST] * 6])
             cases.append((tid, 0, rng.randrange(0, 40), rng.randrange(1, 11), [alpha[i] for i in pre] + pad, []))
+    cases.append((tid, 0, 7, 2, [O_LOST] * 40, []))
     # the sixth-attempt quirk and its neighbours
     for nlost in range(0, 8):
         for last in (o_ok(tid), o_ok(tid, True), o_neg(tid), None):
             cases.append((tid, 0, 5, 1, [rng.choice([O_LOST, O_RLOST]) for _ in range(nlost)] + ([last] if last else [O_LOST] * 3), []))
-    for _ in range(1500 if thorough else 300):
+    for _ in range(1500 if thorough else 600):
         t = rng.choice([0xFF, 0xFE, 0])
         a = (rng.choice([t, t, t, t, 256, -1, 300]), rng.choice([0, 0, 0, 1, 65535, 65536, -1]), rng.choice([0, 5, 1023, 65535, 65536, -3]), rng.choice([1, 10, 0, 65535, 65536, -1]))
         cases.append((a[0], a[1], a[2], a[3], rand_script(rng, t, rng.random() < 0.3), rand_inbox(rng, t)))
@@ -839,6 +847,7 @@ def search_cases(ctx):
             for script, inbox in [([], []),
                                   ([O_LOST] * 6, [(0xFF, bytes([tid, 0x18, 1, 0]))]),
                                   ([O_LOST] * 5 + [o_ok(tid)], []),
+                                  ([O_LOST] * 40, []),
                                   ([o_ok(tid, True), O_LOST] + [O_LOST] * 6, []),
                                   ([O_LOST, o_ok(tid, True), o_ok(tid), O_LOST, O_LOST, O_LOST, O_LOST, O_LOST, O_LOST], []),
                                   ([o_ok(tid)] + [O_RLOST] * 6, []),
